@@ -47,6 +47,19 @@ def r1_single_writer(ctx, mod):
                              "the recorded output is replaced")
 
 
+def buffer_stores_verbatim(kind, args, kwargs):
+    """An io.StringIO built this way hands back exactly what was written to it: no initial text and no newline
+    translation (newline='' or '\\n'; None and '\\r\\n' rewrite what student code printed). PrintingStringIO takes the
+    console stream first."""
+    if kind.endswith('PrintingStringIO'):
+        args = args[1:]
+        kwargs = {k: v for k, v in kwargs.items() if k != 'stdout'}
+    initial = args[0] if args else kwargs.get('initial_value', '')
+    newline = args[1] if len(args) > 1 else kwargs.get('newline', '\n')
+    return len(args) <= 2 and set(kwargs) <= {'initial_value', 'newline'} and initial in ('', None) and \
+        newline in ('', '\n')
+
+
 def start_mocking_observations(ctx, sym, mod):
     """_start_mocking executed abstractly for the three print settings; yields (tag, observations)."""
     from .. import symexec
@@ -134,10 +147,13 @@ def r2_per_execution(ctx, mod, sym):
         _, raised = symexec.run(fd, sm, [context], bound_self=me, what='Sandbox._start_mocking')
         stack = stack_of(me, 'stdout')
         ok = raised is None and len(stack) == 2 and stack[0] is older and len(created) == 1 and stack[1] is created[0] \
-            and not created[0].attrs['ctor_args'] and not created[0].attrs['ctor_kwargs']
+            and buffer_stores_verbatim(created[0]._name, created[0].attrs['ctor_args'], created[0].attrs['ctor_kwargs'])
         ctx.check(ok, 'R2', '_start_mocking:fresh-buffer' + tag, mod, sm,
-                  "_start_mocking does not push exactly one new, empty buffer (stack afterwards: %r, buffers created: "
-                  "%d%s)" % (stack, len(created), '' if raised is None else ', raises ' + raised.kind),
+                  "_start_mocking does not push exactly one new, empty buffer that keeps written text as it is (stack "
+                  "afterwards: %r, buffers created: %d%s%s)" % (
+                      stack, len(created), '' if raised is None else ', raises ' + raised.kind,
+                      '' if not created else ', built with %r %r' % (created[0].attrs['ctor_args'],
+                                                                      created[0].attrs['ctor_kwargs'])),
                   "an execution writes into a buffer that already holds another execution's text")
         if ok:
             want_kind = 'buffer:PrintingStringIO' if print_setting is True else 'buffer:StringIO'
